@@ -1006,7 +1006,7 @@ fn gen_case(batch: &str, _index: u64, seed: u64) -> Case {
                 for v in yy.iter_mut() { *v = ((*v - lo) / span * 8.0).round() * q; }
             }
             2 => {
-                let s = if single { 1e15 } else { 1e100 };
+                let s = if single { 1e12 } else { 1e100 }; // sums of n squares must stay finite in the element type (1e15 * offsets of 100 overflowed f32 variance sums: inf - inf = NaN scores, a model unequal to itself)
                 for v in yy.iter_mut() { *v *= s; }
             }
             3 => { for v in yy.iter_mut() { *v *= 1e-3; } }
